@@ -94,7 +94,35 @@ def selection_index_is_within_the_selected_range(ctx):
     ctx.floor("selection_sites", 1, "nth_element / partial_sort selections in oomd's own code")
 
 
+def growth_ratio_definition(ctx):
+    """kill_by_memory_size_or_growth ranks its growth phase by CgroupContext::memory_growth = current usage / moving average, as a real
+    number - and 0 when the average is 0 (a cgroup that was empty for its whole history has not 'grown' by a factor equal to its few
+    bytes).  Every value-returning exit is the plain quotient of the two accessors or the literal 0; nothing clamps or rewrites the
+    divisor."""
+    P, cg = ctx.prog, ctx.cg
+    f = ctx.use(ctx.fn1("Oomd::CgroupContext::memory_growth"))
+    X = Expander(P, f)
+    CUR = r"\*?this->current_usage\((nullptr|param:\w+)?\)(\.value\(\))?"
+    AVG = r"\*?this->average_usage\((nullptr|param:\w+)?\)(\.value\(\))?"
+    n = 0
+    for r, leaf in return_leaves(f):
+        t = X(leaf)
+        if t in ("std::nullopt", "{}"):
+            continue
+        n += 1
+        ok = t in ("0", "0.0", "0.") or re.fullmatch(r"\((static_cast<double>\()?%s\)? / %s\)" % (CUR, AVG), t) is not None or \
+            re.fullmatch(r"\(%s / (static_cast<double>\()?%s\)?\)" % (CUR, AVG), t) is not None
+        ctx.check(ok, "growth-ratio-definition@%d" % f.nodes[r].get("line", 0), "return_table (value shape)", f.loc(r),
+                  "memory_growth returns 0 or current_usage / average_usage",
+                  "CgroupContext::memory_growth returns %s - not the plain quotient current_usage / average_usage (or 0 for an average of 0): the growth "
+                  "ranking of kill_by_memory_size_or_growth is no longer by the documented ratio (a clamped divisor makes a cgroup that was empty until now "
+                  "the fastest 'grower')" % t[:120])
+    ctx.counters["growth_ratio_returns"] = n
+    ctx.floor("growth_ratio_returns", 1, "value returns of CgroupContext::memory_growth")
+
+
 def run(ctx):
+    growth_ratio_definition(ctx)
     from .C01 import candidates_come_from_ranking
     candidates_come_from_ranking(ctx)
     selection_index_is_within_the_selected_range(ctx)
